@@ -172,6 +172,10 @@ def s3(ctx):
                       "StopReason::IterationLimit is constructed in %s without the iteration counter having been found >(=) the limit (conditions: %s)" % (C.short(root.id), [(k, role_str(a)[:40], role_str(c_)[:40]) for k, a, c_ in cmps]), w)
         elif variant == "NodeLimit":
             ok = any(role_mentions_call(big, "total_number_of_nodes") and (role_mentions_field(small, "node_limit") or role_mentions_param(small, "node_limit")) for _, big, small in cmps)
+            strict = any(k_ == "gt" and role_mentions_call(big, "total_number_of_nodes") and (role_mentions_field(small, "node_limit") or role_mentions_param(small, "node_limit")) for k_, big, small in cmps)
+            if ok and (root.file or "").endswith("runner.rs"):
+                ctx.check(strict, "node-limit-strict:" + key, "NodeLimit is reported only when the node count strictly exceeds the limit",
+                          "StopReason::NodeLimit is constructed in %s under `total_number_of_nodes() >= node_limit`: a run whose e-graph has exactly node_limit e-nodes stops with a limit reason although the limit was not exceeded" % C.short(root.id), w)
             ctx.check(ok, "reason:" + key, "NodeLimit is constructed under `total_number_of_nodes() > node limit`",
                       "StopReason::NodeLimit is constructed in %s without total_number_of_nodes() having been found above the node limit" % C.short(root.id), w)
         elif variant == "TimeLimit":
